@@ -26,7 +26,28 @@ func (ex *Exec) execCall(st *State, in *ssa.Call, b *ssa.BasicBlock, idx int) bo
 		}
 	}
 	if bi, ok := common.Value.(*ssa.Builtin); ok {
-		fr.env[in] = ex.callBuiltin(st, in, bi, common.Args)
+		var bargs []Value
+		hooked := false
+		if con := ex.contractOf(fr.fn); con != nil {
+			for _, a := range con.Ats {
+				if a.Callee == bi.Name() {
+					hooked = true
+				}
+			}
+		}
+		if hooked {
+			for _, a := range common.Args {
+				bargs = append(bargs, ex.val(st, a))
+			}
+			ex.atCallArgs = bargs
+			ex.atCall(st, in, true, nil)
+		}
+		r := ex.callBuiltin(st, in, bi, common.Args)
+		fr.env[in] = r
+		if hooked {
+			ex.atCallArgs = bargs
+			ex.atCall(st, in, false, []Value{r})
+		}
 		return false
 	}
 	depth := len(st.frames)
@@ -97,7 +118,13 @@ func (ex *Exec) atCall(st *State, in ssa.CallInstruction, before bool, results [
 			sig := in.Common().Signature()
 			for j, r := range results {
 				if t, ok := r.(Term); ok {
-					tt := TT{T: t, Ty: sig.Results().At(j).Type()}
+					var rty types.Type
+					if sig != nil && j < sig.Results().Len() {
+						rty = sig.Results().At(j).Type()
+					} else if v, isV := in.(ssa.Value); isV {
+						rty = v.Type()
+					}
+					tt := TT{T: t, Ty: rty}
 					c.binds[fmt.Sprintf("result%d", j)] = tt
 					if j == 0 {
 						c.binds["result"] = tt
@@ -186,9 +213,6 @@ func (ex *Exec) callOrdinal(fn *ssa.Function, in ssa.CallInstruction, name strin
 		for _, b := range fn.Blocks {
 			for _, i := range b.Instrs {
 				if ci, ok := i.(ssa.CallInstruction); ok {
-					if _, isB := ci.Common().Value.(*ssa.Builtin); isB {
-						continue
-					}
 					seq++
 					n := calleeName(ci.Common())
 					byName[n] = append(byName[n], site{i, int(i.Pos()), seq})
@@ -663,7 +687,7 @@ func (ex *Exec) ctxAt(st *State, fr *Frame, b *ssa.BasicBlock, idx int) *SpecCtx
 	c := &SpecCtx{ex: ex, st: st, old: ex.entry, frame: fr, binds: map[string]TT{}, bound: map[string]string{}, at: b, atIdx: idx, pkg: pkgOf(fr.fn)}
 	if fr.fn == ex.fn {
 		for n, v := range ex.entryBinds {
-			c.binds[n] = v
+			c.binds[n+"0"] = v
 		}
 	}
 	return c
